@@ -47,16 +47,21 @@ package cesium
 //@   ensures err == nil ==> (forall j int :: 0 <= j && j < len(chs) ==> !__in(db.mu.dbs.unary, chs[j]) && !__in(db.mu.dbs.virtual, chs[j]))
 //@   ensures forall k ChannelKey :: (forall j int :: 0 <= j && j < len(chs) ==> chs[j] != k) ==> __in(db.mu.dbs.unary, k) == old(__in(db.mu.dbs.unary, k)) && __in(db.mu.dbs.virtual, k) == old(__in(db.mu.dbs.virtual, k))
 //@   modifies db.mu.dbs.unary, db.mu.dbs.virtual
-//@   loop 1 invariant forall j int :: 0 <= j && j < __ri(0) ==> (!__in(db.mu.dbs.unary, chs[j]) && !__in(db.mu.dbs.virtual, chs[j])) || (exists m int :: 0 <= m && m < len(indexChannels) && indexChannels[m] == chs[j])
-//@   loop 1 invariant forall m int :: 0 <= m && m < len(indexChannels) ==> (exists j int :: 0 <= j && j < len(chs) && chs[j] == indexChannels[m])
-//@   loop 1 invariant forall k ChannelKey :: (__in(db.mu.dbs.unary, k) ==> old(__in(db.mu.dbs.unary, k))) && (__in(db.mu.dbs.virtual, k) ==> old(__in(db.mu.dbs.virtual, k)))
-//@   loop 1 invariant forall k ChannelKey :: (forall j int :: 0 <= j && j < len(chs) ==> chs[j] != k) ==> __in(db.mu.dbs.unary, k) == old(__in(db.mu.dbs.unary, k)) && __in(db.mu.dbs.virtual, k) == old(__in(db.mu.dbs.virtual, k))
-//@   loop 1 modifies db.mu.dbs.unary, db.mu.dbs.virtual
-//@   loop 2 invariant forall m int :: 0 <= m && m < __ri(0) ==> !__in(db.mu.dbs.unary, indexChannels[m]) && !__in(db.mu.dbs.virtual, indexChannels[m])
-//@   loop 2 invariant forall j int :: 0 <= j && j < len(chs) ==> (!__in(db.mu.dbs.unary, chs[j]) && !__in(db.mu.dbs.virtual, chs[j])) || (exists m int :: 0 <= m && m < len(indexChannels) && indexChannels[m] == chs[j])
-//@   loop 2 invariant forall k ChannelKey :: (__in(db.mu.dbs.unary, k) ==> old(__in(db.mu.dbs.unary, k))) && (__in(db.mu.dbs.virtual, k) ==> old(__in(db.mu.dbs.virtual, k)))
-//@   loop 2 invariant forall k ChannelKey :: (forall j int :: 0 <= j && j < len(chs) ==> chs[j] != k) ==> __in(db.mu.dbs.unary, k) == old(__in(db.mu.dbs.unary, k)) && __in(db.mu.dbs.virtual, k) == old(__in(db.mu.dbs.virtual, k))
-//@   loop 2 modifies db.mu.dbs.unary, db.mu.dbs.virtual
+//@   # the up-front refusal (an index channel still indexing a channel outside the request) happens
+//@   # before anything is removed
+//@   assert_before "return errors.Newf(" __eq(db.mu.dbs.unary, old(db.mu.dbs.unary)) && __eq(db.mu.dbs.virtual, old(db.mu.dbs.virtual))
+//@   loop 1 modifies nothing
+//@   loop 2 modifies nothing
+//@   loop 3 invariant forall j int :: 0 <= j && j < __ri(0) ==> (!__in(db.mu.dbs.unary, chs[j]) && !__in(db.mu.dbs.virtual, chs[j])) || (exists m int :: 0 <= m && m < len(indexChannels) && indexChannels[m] == chs[j])
+//@   loop 3 invariant forall m int :: 0 <= m && m < len(indexChannels) ==> (exists j int :: 0 <= j && j < len(chs) && chs[j] == indexChannels[m])
+//@   loop 3 invariant forall k ChannelKey :: (__in(db.mu.dbs.unary, k) ==> old(__in(db.mu.dbs.unary, k))) && (__in(db.mu.dbs.virtual, k) ==> old(__in(db.mu.dbs.virtual, k)))
+//@   loop 3 invariant forall k ChannelKey :: (forall j int :: 0 <= j && j < len(chs) ==> chs[j] != k) ==> __in(db.mu.dbs.unary, k) == old(__in(db.mu.dbs.unary, k)) && __in(db.mu.dbs.virtual, k) == old(__in(db.mu.dbs.virtual, k))
+//@   loop 3 modifies db.mu.dbs.unary, db.mu.dbs.virtual
+//@   loop 4 invariant forall m int :: 0 <= m && m < __ri(0) ==> !__in(db.mu.dbs.unary, indexChannels[m]) && !__in(db.mu.dbs.virtual, indexChannels[m])
+//@   loop 4 invariant forall j int :: 0 <= j && j < len(chs) ==> (!__in(db.mu.dbs.unary, chs[j]) && !__in(db.mu.dbs.virtual, chs[j])) || (exists m int :: 0 <= m && m < len(indexChannels) && indexChannels[m] == chs[j])
+//@   loop 4 invariant forall k ChannelKey :: (__in(db.mu.dbs.unary, k) ==> old(__in(db.mu.dbs.unary, k))) && (__in(db.mu.dbs.virtual, k) ==> old(__in(db.mu.dbs.virtual, k)))
+//@   loop 4 invariant forall k ChannelKey :: (forall j int :: 0 <= j && j < len(chs) ==> chs[j] != k) ==> __in(db.mu.dbs.unary, k) == old(__in(db.mu.dbs.unary, k)) && __in(db.mu.dbs.virtual, k) == old(__in(db.mu.dbs.virtual, k))
+//@   loop 4 modifies db.mu.dbs.unary, db.mu.dbs.virtual
 //@   loop 0 modifies nothing
 
 //@ # ---------------------------------------------------------------- reopening (C02: "reopening the database succeeds")
